@@ -408,6 +408,41 @@ def work_generated(seed, n):
     return part
 
 
+def work_templates(seed, shard, nshards):
+    """Every dataset-level template once per run (fixed parameter choices rotated by the seed), over generated hazard data."""
+    warnings.filterwarnings("ignore")
+    import hypothesis
+    from hypothesis import given, settings, HealthCheck, strategies as st
+    part = core.Part()
+    box = {}
+
+    @settings(max_examples=1, database=None, deadline=None, suppress_health_check=list(HealthCheck), phases=[hypothesis.Phase.generate])
+    @hypothesis.seed(seed)
+    @given(st.composite(lambda d: mk_inputs(d))())
+    def grab(x):
+        box["x"] = x
+    grab()
+    dss, rows = box["x"]
+    subs = {"i": ["1", "-13", "400"], "i0": ["1", "9223372036854775807", "0"], "dur": ["A", "M", "D", "Q"], "agg": AGGS, "aggmm": ["max", "min", "count"], "an": ["rank", "first_value", "ratio_to_report", "avg"],
+            "out": ["all", "invalid", ""], "hmode": ["non_null", "always_zero", ""], "hout": ["all", "computed"], "scalar": ["1 / 0", "sqrt(-1.0)"], "scalar_n": ["2.5", "0.0"]}
+    for ti, (name, tpl) in enumerate(DATASET_LEVEL):
+        if ti % nshards != shard:
+            continue
+        script = tpl
+        for k, vals in subs.items():
+            script = script.replace("{%s}" % k, str(vals[(seed + ti) % len(vals)]))
+        names = sorted(n for n in dss if re.search(r"\b%s\b" % n, script))
+        case = dict(script=script, structs={n: dss[n] for n in names}, rows={n: rows[n] for n in names}, fmt=FORMATS[(seed + ti) % 4], used=["ds:" + name])
+        status, key, text = run_one(case)
+        if status.startswith("skip:"):
+            part.hist["template_skipped:" + status.split(":")[1]] += 1
+            continue
+        part.case("template:%s:%d" % (name, seed), status != "ok", labels=["template", "outcome=" + status])
+        if status in ("raw", "vtl_uncatalogued"):
+            part.fail("%s:%s@ds:%s" % (status, key, name), dict(kind="generated", case=case), text)
+    return part
+
+
 def work_corpus(ids, seed):
     warnings.filterwarnings("ignore")
     from verif import corpus
@@ -440,6 +475,7 @@ def run(ctx):
     ids = [c["id"] for c in corpus.executable_cases(max_s=4.0)]
     ids = corpus.rotate(ids, ctx.seed, 160) if ctx.quick else ids
     jobs += [("work_corpus", (ids[k::16], ctx.seed)) for k in range(16)]
+    jobs += [("work_templates", (ctx.seed, k, 4)) for k in range(4)]
     ctx.merge(core.pmap("checks.c32", "_dispatch", jobs, procs=16))
     ctx.assumptions = ["a VTL error is any VTLEngineException subclass whose code is a key of vtlengine.Exceptions.messages.centralised_messages",
                        "the precondition (semantic analysis and load validation pass) is checked by calling the engine's own semantic_analysis and validate_dataset"]
